@@ -567,6 +567,7 @@ type c3Result struct {
 	class    string
 	counts   string
 	statuses []string
+	errText  string
 }
 
 // c3Setup points the process at a store and installs the signing key getAuthorizationToken needs.
@@ -627,6 +628,9 @@ func c3RunAttempt(t *testing.T, c *c3Case, a *c3Attempt, models string, countOut
 				}
 			})
 			res.class = c3Classify(err)
+			if err != nil {
+				res.errText = err.Error()
+			}
 		}()
 		synctest.Wait()
 	})
